@@ -402,6 +402,11 @@ def _mask_terms(fi, stmts, container):
         if isinstance(e, ast.Call) and norm(e.func) in ("np.logical_or", "numpy.logical_or"):
             return (e, "logical_or keeps points with one finite coordinate")
         if isinstance(e, ast.Call) and norm(e.func) in ("np.isfinite", "numpy.isfinite") and len(e.args) == 1:
+            a_ = e.args[0]
+            if isinstance(a_, ast.BinOp) and isinstance(a_.op, (ast.Add, ast.Sub, ast.Mult)) and all(
+                    isinstance(x_, ast.Subscript) and norm(x_.value) == container for x_ in (a_.left, a_.right)):
+                # finite operands can overflow their dtype (float16 > 65504, float32 ~ 3e38, float64 ~ 1e308): such genuine pairs are dropped
+                return (e, "isfinite of `%s` drops pairs whose members are finite but whose combination overflows the dtype" % norm(a_)[:40])
             k_ = key_of(e.args[0])
             keys.update(k_ if isinstance(k_, tuple) else (k_,))
             return None
@@ -1304,6 +1309,44 @@ def c18_rules(ctx):
         r7.ok("sel(order) and dropna both complete before domains[name] is read")
     else:
         raise AnalysisError("idiom changed: init_mapped_dim re-indexing statements (%d found)" % len(rebinds))
+    # ---- R20 an explicit order is applied on every path that maps the dimension
+    r20 = ctx.rule("C18.R20", "init_mapped_dim: when an explicit <prop>_order is given, the dataset is re-indexed by it on every path that goes on to record the coordinates", floor=1)
+    ords = [n for n in g.nodes if n.kind == "stmt" and isinstance(n.ast, ast.Assign) and len(n.ast.targets) == 1 and isinstance(n.ast.targets[0], ast.Name)
+            and isinstance(n.ast.value, ast.Call) and norm(n.ast.value.func) == "getattr" and len(n.ast.value.args) >= 2 and "_order" in norm(n.ast.value.args[1])]
+    need(len(ords) == 1, "anchor lost: <order> = getattr(self, f'{name}_order') in init_mapped_dim")
+    ORD = ords[0].ast.targets[0].id
+    sels = [n for n in rebinds if ".sel(" in norm(n.ast.value) and ORD in {x.id for x in ast.walk(n.ast.value) if isinstance(x, ast.Name)}]
+    if not sels:
+        # the order may have been renamed on the way (order = list(order))
+        sels = [n for n in rebinds if ".sel(" in norm(n.ast.value)]
+    need(len(sels) == 1, "idiom changed: re-indexing by the explicit order in init_mapped_dim (%d statements)" % len(sels))
+    # paths on which an order is given: the arm of `<order> is [not] None` that says "no order" is cut
+    cut = set()
+    for t in g.nodes:
+        if t.kind == "test" and norm(t.ast) in ("%s is not None" % ORD, "%s is None" % ORD, ORD, "not %s" % ORD):
+            dead = "f" if norm(t.ast) in ("%s is not None" % ORD, ORD) else "t"
+            for b_, l_ in g.succ[t.id]:
+                if l_ == dead:
+                    cut.add((t.id, b_, l_))
+    skip = g.reachable(start=ords[0].id, blocked_nodes={sels[0].id}, blocked_edges=cut)
+    if R.id in skip:
+        # which test lets a path with an order given go round the re-indexing?
+        tests = [t for t in g.nodes if t.kind == "test" and t.id in skip and sels[0].id in g.reachable(start=t.id) and not any((t.id, b_, l_) in cut for b_, l_ in g.succ[t.id])]
+        txts = []
+        for t in tests:
+            tx = norm(t.ast)
+            for nm_ in {x.id for x in ast.walk(t.ast) if isinstance(x, ast.Name)}:
+                for _, v_ in assignments_to(imd, nm_):
+                    if v_ is not None:
+                        tx += " <- " + norm(v_)
+            txts.append(tx)
+        if any("sorted(" in tx for tx in txts):
+            r20.bad(ctx.finding("C18.R20", imd, sels[0].ast, "with an explicit order given the re-indexing `%s` is skipped when the order equals the *sorted* coordinates; the dataset need not store them sorted, so slices are then drawn, styled and placed in the stored order, not the requested one" % norm(sels[0].ast)[:60],
+                                construct="order-skipped-when-sorted"), "order applied")
+        else:
+            raise AnalysisError("idiom changed: with an explicit order given a path through init_mapped_dim reaches the recording of the coordinates without `%s` (tests: %s); whether the skipped re-indexing is a no-op there is not analysed" % (norm(sels[0].ast)[:50], "; ".join(txts)[:120]))
+    else:
+        r20.ok("order given -> `%s` on every path to domains[name]" % norm(sels[0].ast)[:60])
     sz = [n for n in g.nodes if n.kind == "stmt" and isinstance(n.ast, ast.Assign) and norm(n.ast.targets[0]) == "self.sizes[%s]" % PN and "domains" in norm(n.ast.value)]
     if sz and norm(sz[0].ast.value) == "len(self.domains[%s])" % PN:
         r7.ok("sizes[name] = len(domains[name])")
@@ -2287,6 +2330,48 @@ def _cmap_state_findings(prog_funcs, entry, state_of):
             if isinstance(n, ast.Call) and isinstance(n.func, ast.Name) and n.func.id in prog_funcs(f.module):
                 todo.append(prog_funcs(f.module)[n.func.id])
     return seen, out
+
+
+def c17_cmap_sites_rule(ctx, rid):
+    """Sibling agreement: every artist and the colour bar's mappable are given the one colour map the plot resolved
+    (self.cmap = resolver(self.colormap, reverse=self.colormap_reverse)); a site that resolves the map again without the
+    reverse option draws with another map than the colour bar shows when colormap_reverse=True."""
+    prog = ctx.prog
+    rr = ctx.rule(rid, "every cmap= handed to matplotlib (artists and the colour bar's mappable) is the plot's one resolved colour map", floor=3)
+    sites = []
+    for f in prog.all_funcs():
+        if not f.qualname.startswith("xyzpy.plot.plotter_matplotlib."):
+            continue
+        for n in ast.walk(f.node):
+            if isinstance(n, ast.Call):
+                for k in n.keywords:
+                    if k.arg == "cmap" and not (isinstance(k.value, ast.Constant) and k.value.value is None):
+                        sites.append((f, n, k.value))
+            elif isinstance(n, ast.Assign) and len(n.targets) == 1 and isinstance(n.targets[0], ast.Subscript) and isinstance(n.targets[0].slice, ast.Constant) and n.targets[0].slice.value == "cmap":
+                sites.append((f, n, n.value))
+    seen = set()
+    for f, n, v in sites:
+        if id(v) in seen:
+            continue
+        seen.add(id(v))
+        ctx.touch(f)
+        if isinstance(v, ast.Name):
+            d_ = single_def(f, v.id)
+            if d_ is not None:
+                v = d_[1]
+        if norm(v) == "self.cmap":
+            rr.ok("%s: cmap=self.cmap" % f.qualname.rsplit(".", 2)[-2] + "." + f.name)
+        elif isinstance(v, ast.Call) and norm(v.func).rsplit(".", 1)[-1] == "xyz_colormaps":
+            rv = arg(v, 1, "reverse")
+            a0 = arg(v, 0, "name")
+            if a0 is not None and norm(a0) == "self.colormap" and rv is not None and norm(rv) == "self.colormap_reverse":
+                rr.ok("%s: cmap resolved again with the reverse option" % f.name)
+            else:
+                rr.bad(ctx.finding(rid, f, v, "%s hands matplotlib `%s`: the colour map is resolved again %s, while the colour bar's mappable uses self.cmap (resolved with reverse=self.colormap_reverse) -- with colormap_reverse=True the drawn colours and the colour bar show opposite maps" % (
+                    f.name, norm(v)[:50], "without the reverse option" if rv is None else "with another reverse option"), construct="cmap-resolved-again " + f.name), "%s cmap" % f.name)
+        else:
+            raise AnalysisError("idiom changed: %s hands matplotlib cmap=`%s`" % (f.qualname, norm(v)[:50]))
+    return rr
 
 
 def c17_cmap_state_rule(ctx, rid):
